@@ -56,7 +56,7 @@ impl<'a> PlainStylist<'a> {
                     if newline_count > 0 {
                         self.is_multiline = true;
                         if !self.items.is_empty() {
-                            PlainItem::Linebreak(newline_count.min(nl + 1))
+                            PlainItem::Linebreak(newline_count.min(nl.saturating_add(1)))
                         } else {
                             continue;
                         }
